@@ -79,6 +79,7 @@ type ChanData struct {
 	Buf    []Value
 	Cap    int
 	Closed bool
+	Timer  int // 0 ordinary channel; 1 ticker channel; 2 one-shot timer channel (fires only when a vpump lets time pass)
 }
 
 func strC(s string) StrV {
